@@ -2933,6 +2933,12 @@ HPgetdiskblock(filerec_t *file_rec, int32 block_size, int moveto)
     if (file_rec == NULL || block_size < 0)
         HGOTO_ERROR(DFE_ARGS, FAIL);
 
+    /* offsets and lengths are signed 32-bit quantities in the file format: a block
+       that would end beyond the largest one cannot be described (the end-of-file
+       offset would wrap to a negative value) */
+    if (file_rec->f_end_off < 0 || block_size > (int32)0x7fffffff - file_rec->f_end_off)
+        HGOTO_ERROR(DFE_BADLEN, FAIL);
+
 #ifdef DISKBLOCK_DEBUG
     block_size += (DISKBLOCK_HSIZE + DISKBLOCK_TSIZE);
     /* get the offset of the allocated block */
